@@ -129,7 +129,12 @@ def applyQuery (c : Ctx) (string query : Str) (ty : Str) (fields : Dict) : Excep
       | some t =>
         match c.dictToSidStr newData t with
         | .error x => .error x
-        | .ok ns => if ns.isEmpty then .error .spil else .ok ⟨ns, t, newData⟩
+        | .ok ns =>
+          if ns.isEmpty then .error .spil else
+          -- fields in template order (repaired): re-read the rendered string
+          match c.sidToDict ns (some t) with
+          | .error x => .error x
+          | .ok r => .ok ⟨ns, t, ((r.map (·.2)).getD newData)⟩
 
 /-! ### `sid_factory` -/
 
